@@ -375,7 +375,7 @@ def transform_do_ob():
     import z3
     from brax.io import mjcf
     P, Q, p, q = px.symarr('P', (3,)), px.symarr('Q', (4,)), px.symarr('p', (3,)), px.symarr('q', (4,))
-    res = px.explore(lambda: mjcf._transform_do(P, Q, p, q), catch=())
+    res = px.explore(lambda: mjcf._transform_do(parent_pos=P, parent_quat=Q, pos=p, quat=q) if 'parent_pos' in __import__('inspect').signature(mjcf._transform_do).parameters else mjcf._transform_do(P, Q, p, q), catch=())
     if len(res) != 1:
       return Result(UNDECIDED, '_transform_do branches on data')
     pos, rot = res[0].value
